@@ -24,8 +24,12 @@ def open_signatures(pid):
 def history_of(trace, line):
     """Events of the history containing 1-based `line`, up to and including it."""
     evs = core.read_events(trace, line)
-    start = max(i for i, e in enumerate(evs) if e["ev"] == "reset")
-    return evs[start:]
+    starts = [i for i, e in enumerate(evs) if e["ev"] == "reset"]
+    # (a watchdog event written while the recorder was re-executing a prefix silently has no recorded history
+    # before it: it carries the whole op list itself)
+    if evs and evs[-1].get("ev") == "watchdog" and evs[-1].get("ops_all") and (not starts or any(e.get("ev") == "watchdog" for e in evs[starts[-1]:-1])):
+        return [evs[-1]]
+    return evs[starts[-1]:] if starts else evs[-1:]
 
 
 def ops_of(events):
@@ -101,8 +105,17 @@ def report(rep, pid, res, sigs, what, extra_fields=None):
         ev = hist[-1]
         mm = [m for m in r["mismatches"] if _LINE.match(m) and int(_LINE.match(m).group(1)) == line] or r["mismatches"][-2:]
         head = hist[0]
-        rep.violation(dict({"property": pid, "ops": ops_of(hist), "failing_event": {k: ev[k] for k in ev if k not in ("opj",)},
-                            "mismatch": [m[:1500] for m in mm[:4]]}, **(extra_fields or {})),
+        ops = ops_of(hist)
+        wd_fields = {}
+        if ev.get("ev") == "watchdog" and ev.get("ops_all"):
+            # the call that never returned: replay the whole op list with the history's own RNG seed
+            allops = json.loads(ev["ops_all"])
+            if head.get("ev") != "reset":
+                head = dict(allops[0], ev="reset")
+                ops = allops
+            wd_fields = {"hseed": ev.get("hseed", "")}
+        rep.violation(dict({"property": pid, "ops": ops, "failing_event": {k: ev[k] for k in ev if k not in ("opj", "ops_all")},
+                            "mismatch": [m[:1500] for m in mm[:4]]}, **dict(extra_fields or {}, **wd_fields)),
                       f"{what}: {head['region']}/{head['front']}{'/classC' if head['classc'] else ''} event {len(hist)} "
                       f"({ev['ev']} {ev.get('kind','')}): {(mm[0] if mm else 'trace rejected')[:260]}")
 
@@ -291,7 +304,7 @@ def replay(pid, path):
     wd = core.workdir(rp)
     src = os.path.join(wd, "ops.json")
     with open(src, "w") as f:
-        json.dump({"ops": r["ops"]}, f)
+        json.dump({"ops": r["ops"], "hseed": r.get("hseed", "")}, f)
     core.run_vh("macreplay", wd, extra=[f"in={src}"], cert=bool(r.get("cert")))
     traces = sorted(glob.glob(os.path.join(wd, "mac.*.ndjson")))
     if r.get("cert"):
